@@ -168,6 +168,31 @@ def c01(tier, rng):
     for L in LENS:
         add(PRE + " ; start 0 0 disc rs=%s ; poll 0" % rep(L), ["disconnect", "len%d" % L])
     add(PRE + " ; start 0 0 ping ; poll 0 ; start 1 0 ping ; poll 1", ["pingreq"])
+    # exact variable-byte-integer boundaries of the REMAINING LENGTH and PROPERTY LENGTH fields themselves
+    # (127|128, 16383|16384, 2097151|2097152): sweep the free length so that every packet kind crosses each
+    bounds = [127, 128, 16383, 16384] + ([2097151, 2097152] if tier == "thorough" else [])
+    for T in bounds:
+        for dlt in range(0, 14):
+            L = T - dlt
+            if L < 0:
+                continue
+            small = T <= 16384
+            add(PRE + " ; start 0 0 pub q=0 t=74 pl=%s ; poll 0" % rep(L, 0x50), ["publish", "rl%d" % T])       # RL = L + 4
+            add(PRE + " ; start 0 0 pub q=1 t=74 pl=%s ; poll 0" % rep(L, 0x51), ["publish", "rl%d" % T])       # RL = L + 6
+            if L <= 65535:
+                add(PRE + " ; start 0 0 pub q=0 t=74 ct=%s ; poll 0" % rep(L), ["publish", "pl%d" % T])         # PL = L + 3
+                add(PRE + " ; start 0 0 sub f=%s:1000 ; poll 0" % rep(max(L, 1)), ["subscribe", "rl%d" % T])
+                add(PRE + " ; start 0 0 unsub f=%s ; poll 0" % rep(max(L, 1)), ["unsubscribe", "rl%d" % T])
+                add(PRE + " ; start 0 0 disc rs=%s ; poll 0" % rep(L), ["disconnect", "pl%d" % T])
+                add("connect am=%s" % rep(L), ["connect", "pl%d" % T])
+                add("connect cid=%s" % rep(L), ["connect", "rl%d" % T])
+                add("connect wt=77 wp=01 wct=%s" % rep(L), ["connect", "will", "pl%d" % T])
+    if tier == "thorough":
+        # property sections beyond 65535 bytes need several large properties
+        for extra in range(0, 8):
+            ups = " ".join("up=%s:%s" % (rep(65535, 0x6b), rep(65535, 0x76)) for _ in range(15))
+            add(PRE + " ; start 0 0 pub q=0 t=74 %s up=%s:%s ; poll 0" % (ups, rep(65535, 0x6b), rep(65521 - 8 + extra, 0x76)),
+                ["publish", "pl2097151"])
     # several packets in submission order under fragmenting writes
     add(PRE + " ; start 0 0 pub q=1 t=61 pl=%s ; start 1 0 sub f=62:1000 ; start 2 0 ping ; hold ; poll 0 ; poll 1 ; poll 2 ; release"
         % rep(700, 9), ["concat"])
@@ -359,6 +384,12 @@ def c03(tier, rng):
             pts = sorted(set(rng.randrange(1, len(stream)) for _ in range(k)))
             cuts = list(zip([0] + pts, pts + [len(stream)]))
             add(stream, cuts, ["random"], tail, hold=rng.random() < 0.2)
+    # one poll going through tens of thousands of reads: a large packet whose bytes are all available but handed
+    # out by the transport in tiny pieces (the depth of whatever the framing code does per read becomes visible)
+    for L, piece in ([(12000, 1), (30000, 3)] if tier == "quick" else [(12000, 1), (30000, 3), (24000, 1), (60000, 2)]):
+        stream = M.pingresp() + M.publish(b"t", bytes((i * 7) % 253 for i in range(L)), ps=[(11, 1)]) + M.pingresp()
+        cuts = [(a, min(a + piece, len(stream))) for a in range(0, len(stream), piece)]
+        add(stream, cuts, ["burst"], " ; pollstream 0 ; pollstream 0", hold=True)
     if tier == "thorough":
         stream = M.publish(b"t", b"\x55" * 2097152, ps=[(11, 1)]) + M.pingresp()
         add(stream, [(0, 1), (1, 3), (3, 1000), (1000, len(stream) - 1), (len(stream) - 1, len(stream))], ["2MiB"])
@@ -451,6 +482,11 @@ def c04(tier, rng):
         for cause in ("eof", "rerr"):
             out.append(case("fault-%s-%d" % (cause, k), phases["running"] + " ; deliver %s ; %s ; poll 0 ; poll 1 ; poll 2"
                             % (hx(exch[:k]), cause), ["fault", cause]))
+    # a large packet (valid, and one with a malformed tail) all available at once but read a byte at a time
+    for nm, big in (("ok", M.publish(b"a", bytes(i % 251 for i in range(12000)), ps=[(11, 1)])),
+                    ("bad", M.packet(0x30, M.binf(b"a") + b"\x00" * 9000)[:-1] + b"\xff" + b"\x40\xff\xff\xff\xff\x7f")):
+        out.append(case("burst-%s" % nm, phases["running"] + " ; hold ; " + " ; ".join("deliver %02x" % b for b in big)
+                        + " ; release ; poll 0 ; poll 1 ; poll 2 ; deliver d000", ["burst"]))
     for k in range(0, 40):
         out.append(case("fault-werr-%d" % k, "werr %d ; " % k + phases["running"] + " ; deliver %s ; poll 0 ; poll 1 ; poll 2"
                         % hx(exch), ["fault", "werr"]))
